@@ -10,6 +10,8 @@ ALPHA = Alphabet(
     add=[((T0,), "a", "ok"), ((T0, T1), "a", "ok")],
     fac=[((T0,), "a", False, "ok"), ((T0, T1), "a", False, "ok")],
     look=[(T0, "a", "nowait"), (T1, "a", "nowait"), (T0, "a", "await"), (T1, "a", "inject_sync")],
+    visit=True,
+    deferred=True,
 )
 # thorough: a second name and async factories as well
 ALPHA_T = Alphabet(
@@ -17,6 +19,8 @@ ALPHA_T = Alphabet(
     add=[((T0,), "a", "ok"), ((T0, T1), "a", "ok"), ((T0,), "b", "ok")],
     fac=[((T0,), "a", False, "ok"), ((T0, T1), "a", True, "ok")],
     look=[(T0, "a", "nowait"), (T1, "a", "await"), (T0, "a", "inject_async"), (T0, "b", "shortcut_nowait")],
+    visit=True,
+    deferred=True,
 )
 
 
@@ -54,7 +58,8 @@ R = Harness(
     cube=lambda tier: 1 if tier == "quick" else 2,
     title="R-history: visible set of every context after every operation vs the scoping model",
     bound_text=lambda tier: (
-        "histories of 3 operations over <=3 contexts (any tree shape), 1 name, 2 types; ops: create_child(p), add_resource(T0 | T0+T1), "
+        "histories of 3 operations over <=3 contexts (any tree shape), 1 name, 2 types; ops: create_child(p) - entered at once, or constructed now and "
+        "entered only after the next operation -, a task temporarily entering and leaving a Context with an explicit other parent, add_resource(T0 | T0+T1), "
         "add_resource_factory(T0 | T0+T1, sync), lookup(T0|T1 via nowait/await/inject) -- then generating probes of every key in every context"
         if tier == "quick"
         else "histories of 4 operations over <=3 contexts, 2 names, 2 types; ops: create_child(p), add_resource(T0/a | T0+T1/a | T0/b), "
